@@ -77,6 +77,8 @@ def write_meta_image(data: Tensor, grid: Grid, path: PathUri, compress: bool = T
     if suffix == ".mha":
         if data.ndim > grid.ndim + 1:
             raise ValueError("write_image() data.ndim must be equal to grid.ndim or grid.ndim + 1")
+        if data.ndim == grid.ndim:
+            data = data.unsqueeze(0)
         meta = {
             "CompressedData": compress,
             "ElementNumberOfChannels": data.shape[0],
